@@ -70,6 +70,10 @@ Init == /\ \/ \E t \in Templates, p \in {P0, P1, P2, P3, P12, PQ, PB} : case = M
            \/ \E p \in Patterns, s \in Subjects : case = MkCase(F("replace", <<S, RX(p), NLambda(<<"m">>, NConcat(NCall(NVar("string"), <<NPath(<<NVar("m"), NName(<<105, 110, 100, 101, 120>>)>>, FALSE)>>),
                                                                         NCall(NVar("join"), <<NPath(<<NVar("m"), NName(<<103, 114, 111, 117, 112, 115>>)>>, FALSE), NStr(<<45>>)>>)))>>), Str(s))
            \/ \E p \in Patterns, s \in Subjects : case = MkCase(F("replace", <<S, RX(p), NLambda(<<"m">>, NNum(IntV(1)))>>), Str(s))
+           \* what a replacement function returns is used as it is - it is not a template
+           \/ \E p \in {P0, P1, P2, PB}, s \in {<<97, 98, 97>>, <<120, 97, 98, 120>>}, r \in {<<36, 48>>, <<36, 49>>, <<36, 36>>, <<36>>, <<60, 36, 49, 62>>} :
+                  \/ case = MkCase(F("replace", <<S, RX(p), NLambda(<<"m">>, NStr(r))>>), Str(s))
+                  \/ case = MkCase(F("replace", <<S, RX(p), NLambda(<<"m">>, NConcat(NStr(<<36>>), NPath(<<NVar("m"), NName(<<109, 97, 116, 99, 104>>)>>, FALSE)))>>), Str(s))
            \* the literal applied as a function and the `next` chain
            \/ \E p \in Patterns, s \in Subjects : case = MkCase(NCall(RX(p), <<S>>), Str(s))
            \/ \E p \in Patterns, s \in Subjects : case = MkCase(NPath(<<NBlock(<<NCall(RX(p), <<S>>)>>), NCall(NName(<<110, 101, 120, 116>>), <<>>)>>, FALSE), Str(s))
